@@ -305,6 +305,25 @@ pub fn roundtrip_list(rep: &mut Report, bl: &BlockList, origin: &str) {
             }
         }
     }
+    // ... also when the source delivers the writer's output in small pieces (short reads inside a
+    // block), and through the other reading entry points
+    if bytes.len() <= 60_000 {
+        let plan = [vec![1usize], vec![1, 2, 3, 5, 7], vec![13, 4096]][(fnv(&bytes) % 3) as usize].clone();
+        let chunked = mon::guard(|| metadata::read_blocks(crate::io::Chunked::new(bytes.clone(), plan.clone())).collect::<Result<Vec<Block>, _>>().map_err(|e| crate::api::show(&e)));
+        match chunked {
+            Err(p) => rep.violation("panic", format!("read_blocks:{}", p.signature()), format!("{origin}: chunked source {plan:?}: {} at {}", p.msg, p.location), replay()),
+            Ok(Err(e)) => rep.violation("roundtrip", format!("written-but-unreadable-in-pieces:{}", err_name(&e)), format!("{origin}: the reader refuses the writer's output when the source delivers it in reads of {plan:?} bytes: {e}"), replay()),
+            Ok(Ok(rb)) if rb != blocks => rep.violation("roundtrip", "roundtrip-differs-in-pieces", format!("{origin}: blocks read from a source delivering {plan:?}-byte reads differ"), replay()),
+            Ok(Ok(_)) => rep.count("reader_source", "chunked"),
+        }
+        let via_list = mon::guard(|| BlockList::read(crate::io::Chunked::new(bytes.clone(), plan.clone())).map(|l| blocks_of(&l)).map_err(|e| crate::api::show(&e)));
+        match via_list {
+            Err(p) => rep.violation("panic", format!("BlockList::read:{}", p.signature()), format!("{origin}: {} at {}", p.msg, p.location), replay()),
+            Ok(Err(e)) => rep.violation("roundtrip", format!("written-but-unreadable-in-pieces:BlockList:{}", err_name(&e)), format!("{origin}: BlockList::read refuses the writer's output from a source delivering {plan:?}-byte reads: {e}"), replay()),
+            Ok(Ok(rb)) if rb != blocks => rep.violation("roundtrip", "roundtrip-differs-in-pieces:BlockList", format!("{origin}: BlockList::read over a chunked source gives different blocks"), replay()),
+            Ok(Ok(_)) => {}
+        }
+    }
     // self-reported sizes vs the independent walker
     match flacref::dec::walk_metadata(&bytes, false) {
         Ok((_, walked, _, end)) => {
